@@ -38,14 +38,28 @@ def config(typ, variant="std"):
         return (("a", typ, 2, None), ("s", typ, None, None), ("b", typ, 1, "0x401/1/1"))
     if variant == "many":    # more than ten tags auto-allocated in one instance (attribute ids 1..12), mixed lengths
         return tuple(("t%d" % i, typ, (None if i % 3 == 0 else 2), None) for i in range(12))
+    if variant == "latin":   # ISO-8859-1 names: two names that differ only by sharp-s vs 'ss' are different tags; case-insensitive otherwise
+        return (("Ma\xdf", typ, 2, None), ("Mass", typ, 2, None), ("\xd6l", typ, None, None), ("b", typ, 1, "0x401/1/1"))
     if variant == "alias":   # two names for one attribute, a 16-bit instance id, a tag name with a dot
         return (("a", typ, 2, None), ("b", typ, 2, "0x401/300/1"), ("b2", typ, 2, "0x401/300/1"), ("x.y", typ, None, None))
     raise ValueError(variant)
 
 
+def othercase(name):
+    """the same tag name in the other case, character by character (only characters with a one-to-one ISO-8859-1 case pair)"""
+    out = []
+    for ch in name:
+        u, l = ch.upper(), ch.lower()
+        if len(u) == 1 and len(l) == 1 and u != l and ord(u) < 256 and ord(l) < 256:
+            out.append(l if ch == u else u)
+        else:
+            out.append(ch)
+    return "".join(out)
+
+
 def addressings(name, address, how="all"):
     """the ways one tag can be addressed: symbolic, symbolic other case, class/instance/attribute, default attribute"""
-    out = [("sym", name), ("sym", name.upper() if name != name.upper() else name.lower())]
+    out = [("sym", name), ("sym", othercase(name))]
     c, i, a = address
     out.append(("cia", c, i, a))
     if a == 1:
